@@ -28,10 +28,11 @@ const (
 type Timer struct {
 	C  <-chan Time
 	ts *vsched.TimerState
+	f  func()
 }
 
 func AfterFunc(d Duration, f func()) *Timer {
-	t := &Timer{ts: vsched.NewTimer(f)}
+	t := &Timer{ts: vsched.NewTimer(f), f: f}
 	vsched.NoteTimerDur(int64(d))
 	return t
 }
@@ -41,9 +42,22 @@ func (t *Timer) Stop() bool {
 	return t.ts.Stop()
 }
 
+// Reset re-arms the timer: the pending firing (if any) is cancelled and a new one is scheduled.
+func (t *Timer) Reset(d Duration) bool {
+	vsched.PointOp(vsched.OpTimerStop)
+	active := t.ts.Stop()
+	t.ts = vsched.NewTimer(t.f)
+	vsched.NoteTimerDur(int64(d))
+	return active
+}
+
+// Sleep parks the calling thread until the scheduler decides the (virtual) timer fires.
+func Sleep(d Duration) { vsched.Recv1(NewTimer(d).C) }
+
 func NewTimer(d Duration) *Timer {
 	ch := make(chan Time, 1)
-	t := &Timer{C: ch, ts: vsched.NewTimer(func() { vsched.Send(ch, Time{}) })}
+	f := func() { vsched.Send(ch, Time{}) }
+	t := &Timer{C: ch, ts: vsched.NewTimer(f), f: f}
 	vsched.NoteTimerDur(int64(d))
 	return t
 }
